@@ -476,3 +476,17 @@ def regen_cte(c):
          "_quote_alias, _quote_identifier, _date_trunc and _join_conjuncts are scripted; the text -> (items, FROM, WHERE) splitter is trusted; validated against CPython each run)")
     if t not in c.trusted:
         c.trusted.append(t)
+
+
+def regen_refrewrite(c):
+    """Gen/RefRewrite_gen.v (the two reference-rewriting helpers of SQLGenerator on scripted texts): regenerate and validate the interpreter against CPython."""
+    from translator import gen_refrewrite
+    try:
+        write_if_changed(os.path.join(COQ, "Gen", "RefRewrite_gen.v"), gen_refrewrite.generate(REPO))
+        c.obligation("translator: _rewrite_model_refs_to_ctes / _rewrite_filter_for_preaggregation on scripted texts regenerated (Gen/RefRewrite_gen.v)", True, "translator")
+        c.obligation("translator validation: interpreted reference-rewriting helpers == the real methods under CPython on the same texts", gen_refrewrite.tables(REPO) == gen_refrewrite.tables(REPO, real=True), "translator")
+    except Exception as e:
+        c.obligation("translator: reference-rewriting helpers regenerated (Gen/RefRewrite_gen.v)", False, "translator", repr(e)[-900:])
+    t = "translator/pyinterp.py + gen_refrewrite.py (fail-closed definitional interpreter; sqlglot's parser / printer / to_identifier are scripted, `re` is the real module; validated against CPython each run)"
+    if t not in c.trusted:
+        c.trusted.append(t)
